@@ -544,8 +544,47 @@ func extractGrpcBroker(p *pkgs, f *facts) {
 	} else {
 		f.miss = append(f.miss, "GRPCBroker.Accept / listenForKnocks")
 	}
-	f.lean = append(f.lean, fmt.Sprintf("def grpcKnockLoop : GrpcMux.KnockLoopParams := ⟨%s⟩", leanBool(usesSlot)))
-	f.set("grpcKnockLoop", map[string]interface{}{"usesAcceptSlot": usesSlot})
+	// the close hook of a multiplexed listener removes the id's pending entry only while it is still ITS entry: the delete
+	// sits under `if b.serverStreams[id] == <P>` (<P> the variable Accept assigned from getServerStream)
+	ownOnly := false
+	if acc := p.fn("GRPCBroker", "Accept"); acc != nil {
+		slotVar := ""
+		ast.Inspect(acc.Body, func(n ast.Node) bool {
+			if as, ok := n.(*ast.AssignStmt); ok && len(as.Lhs) == 1 && len(as.Rhs) == 1 && exprString(as.Rhs[0]) == "b.getServerStream(id)" && slotVar == "" {
+				slotVar = exprString(as.Lhs[0])
+			}
+			return true
+		})
+		guarded, bare := 0, 0
+		var walk func(n ast.Node, underGuard bool)
+		walk = func(n ast.Node, underGuard bool) {
+			ast.Inspect(n, func(m ast.Node) bool {
+				switch v := m.(type) {
+				case *ast.IfStmt:
+					c := exprString(v.Cond)
+					g := underGuard || (slotVar != "" && (c == "b.serverStreams[id]=="+slotVar || c == slotVar+"==b.serverStreams[id]"))
+					walk(v.Body, g)
+					if v.Else != nil {
+						walk(v.Else, underGuard)
+					}
+					return false
+				case *ast.CallExpr:
+					if exprString(v.Fun) == "delete" && len(v.Args) == 2 && exprString(v.Args[0]) == "b.serverStreams" {
+						if underGuard {
+							guarded++
+						} else {
+							bare++
+						}
+					}
+				}
+				return true
+			})
+		}
+		walk(acc.Body, false)
+		ownOnly = guarded >= 1 && bare == 0
+	}
+	f.lean = append(f.lean, fmt.Sprintf("def grpcKnockLoop : GrpcMux.KnockLoopParams := ⟨%s, %s⟩", leanBool(usesSlot), leanBool(ownOnly)))
+	f.set("grpcKnockLoop", map[string]interface{}{"usesAcceptSlot": usesSlot, "closeRemovesOwnEntryOnly": ownOnly})
 	f.lean = append(f.lean, fmt.Sprintf("def grpcMuxClientClose : GrpcMux.ClientCloseParams := ⟨%s, %s⟩", leanBool(discards), leanBool(unblockFree)))
 	f.set("grpcMuxClientClose", map[string]interface{}{"discardsAnnounced": discards, "unblockNeverBlocks": unblockFree})
 	f.lean = append(f.lean, fmt.Sprintf("def grpcMuxHandoff : GrpcMux.HandoffParams := ⟨%s⟩", leanBool(releasedOnClose)))
